@@ -22,13 +22,7 @@ pub const ENTRIES: [&str; 10] = [
 // ------------------------------------------------------------------------------------------
 
 pub fn in_sub_alphabet(s: &str) -> bool {
-    s.chars().all(|c| {
-        let u = c as u32;
-        (1..0x80).contains(&u)
-            || (0xFF61..=0xFF9F).contains(&u)
-            || (0x3041..=0x3093).contains(&u)
-            || (0x30A1..=0x30F6).contains(&u)
-    })
+    crate::subcodec::all_in_alphabet(s)
 }
 
 /// Input bytes that make `encoding_rs`' BOM sniffing kick in somewhere are not compared in detail.
